@@ -179,9 +179,12 @@ func (w *w1World) checkSettled() {
 				if !ok || cl.isClosed() || cl.client.IsSubscribed(ch) != sub {
 					continue
 				}
+				// nothing else publishes at the settled point: every publication push on
+				// the channel after the marker was published is the marker (its payload may
+				// be delta-encoded, so it is not matched by content)
 				got := 0
 				for _, f := range cl.frames {
-					if f.Kind == "push:pub" && f.Ch == ch && f.Pub.Data == rec.Data {
+					if f.Kind == "push:pub" && f.Ch == ch && f.Seq > rec.Seq {
 						got++
 					}
 				}
